@@ -1971,6 +1971,157 @@ def project_judge(proj, ri, res):
     return obj, shape
 
 
+# ---------------------------------------------------------------- H5b: projects that FORK
+# harness/c19_projgen.py gen_fork_project: parent waits / parent exits first (the child blocks on a pipe
+# until the parent is gone) / double fork / multiprocessing.Process; the child calls functions (of the
+# script, of a sibling module, methods, builtins) nobody called before the fork.  Ground truth = one
+# sys.setprofile log PER PROCESS of an untraced run (c19_projlog.py starts a new log after a fork).
+# Monitor (C19's statement, per process): the sequences of program-code calls the processes made are the
+# sequences of program-code entries of the tasks of the trace, under their NAMES; no call of the trace
+# is unnamed (<9>(), <a>(): an address with no entry in python.fake.sym); the script's output (as a
+# multiset of lines: the processes are not ordered against each other) and exit status are unchanged.
+FORK_DROP = ("os_exit",)
+UNNAMED_RE = re.compile(r"^<[0-9a-f]+>$")
+
+
+def replay_by_task(text):
+    """`uftrace replay -f tid` -> ({tid: [entry names in order]}, [unnamed entries])"""
+    tasks, unnamed = {}, []
+    for l in text.split("\n"):
+        m = re.match(r"\s*\[\s*(\d+)\] \|\s*(.*?)\s*$", l)
+        if not m:
+            continue
+        b = m.group(2)
+        if not b or b.startswith("}") or b.startswith("/*"):
+            continue
+        if b.endswith("{") or b.endswith(";"):
+            name = b[:-1].strip()
+            if name.endswith("()"):
+                name = name[:-2]
+            tasks.setdefault(m.group(1), []).append(name)
+            if UNNAMED_RE.match(name):
+                unnamed.append(name)
+    return tasks, unnamed
+
+
+def fork_run_one(ctx, out, proj, ri):
+    uft = os.path.join(ctx.src, "uftrace")
+    sm, lm, filt = proj["runs"][ri]
+    argv0, cwd, pathdir = start_cmd(proj["W"], sm)
+    env = project_env()
+    nrc, nout, nerr, nto = C.run_bounded([argv0], 60, cwd=cwd, env=env, errors="replace")
+    lenv = dict(env)
+    base = os.path.join(out, "f%d-%d.log" % (proj["idx"], ri))
+    lenv["C19_LOG"] = base
+    lenv["PYTHONPATH"] = os.path.join(C.VERIF, "harness")
+    lrc, lout, lerr, lto = C.run_bounded(["python3", "-m", "c19_projlog", argv0], 60, cwd=cwd, env=lenv, errors="replace")
+    logs = [read_projlog(base)]
+    for f in sorted(os.listdir(out)):
+        if f.startswith(os.path.basename(base) + "."):
+            logs.append(read_projlog(os.path.join(out, f)))
+    tenv = dict(env)
+    tenv["PYTHONPATH"] = os.path.join(ctx.src, "python")
+    d = os.path.join(out, "f%d-%d.data" % (proj["idx"], ri))
+    cmd = [uft, "record", "--libmcount-path=" + os.path.join(ctx.src, "libmcount"), "--no-event", "--no-pager",
+           "-d", d] + LIBCALL_OPTS[lm] + [argv0]
+    rrc, rout, rerr, rto = C.run_bounded(cmd, 100, cwd=cwd, env=tenv, errors="replace")
+    _, rp, _, _ = C.run_bounded([uft, "replay", "--no-pager", "-d", d, "-f", "tid"], 100, cwd=cwd, env=tenv, errors="replace")
+    _, info, _, _ = C.run_bounded([uft, "info", "--no-pager", "-d", d], 60, cwd=cwd, env=tenv, errors="replace")
+    return {"native": (nrc, nout, nerr), "record": (rrc, rout, rerr), "replay": rp, "info": info,
+            "ref": (lrc, lout, lerr), "logs": logs, "timeouts": [nto, lto, rto],
+            "cmd": cmd[:1] + ["record"] + cmd[5:], "cwd": cwd, "argv0": argv0}
+
+
+def fork_judge(proj, ri, res):
+    sm, lm, filt = proj["runs"][ri]
+    prog = set()
+    for evs, cls, files in res["logs"]:
+        prog |= {n for n, c in cls.items() if c in ("M", "D")}
+    prog -= set(FORK_DROP)
+    want = []
+    for evs, cls, files in res["logs"]:
+        seq = [e[2:] for e in evs if e[0] == "c" and e[2:] in prog]
+        if seq:
+            want.append(seq)
+    tasks, unnamed = replay_by_task(res["replay"])
+    got = [[n for n in seq if n in prog] for seq in tasks.values()]
+    got = [g for g in got if g]
+    nrc, nout, nerr = res["native"]
+    rrc, rout, rerr = res["record"]
+    problems = []
+    lines = lambda t: sorted(t.split("\n"))
+    if any(res["timeouts"][:2]) or len(want) < 2 or lines(res["ref"][1]) != lines(nout):
+        problems.append("reference run of the program disagrees with the native run (check's own problem)")
+    if res["timeouts"][2]:
+        problems.append("uftrace record did not finish within 100 s")
+    missing = []
+    if sorted(got) != sorted(want):
+        seen = {n for g in got for n in g}
+        missing = sorted({n for w in want for n in w} - seen)
+        problems.append("the program-code calls of the %d processes are not the entries of the tasks of the trace%s"
+                        % (len(want), " (never shown under their name: %s)" % ", ".join(missing) if missing else ""))
+    if unnamed:
+        problems.append("the trace has %d calls of unnamed functions (%s)" % (len(unnamed), ", ".join(sorted(set(unnamed))[:6])))
+    if lines(rout) != lines(nout):
+        problems.append("stdout of the script changed under uftrace record")
+    st = info_exit_status(res["info"])
+    if st != nrc:
+        problems.append("exit status recorded by uftrace (%r) is not the script's (%r)" % (st, nrc))
+    if (rrc == 0) != (nrc == 0):
+        problems.append("uftrace record rc %d but the script's status is %d" % (rrc, nrc))
+    if not problems:
+        return None
+    return {"kind": "property-violated-on-implementation", "family": "fork-project", "what": "; ".join(problems),
+            "fork_variant": proj["variant"], "start_mode": sm, "libcall_mode": lm, "options": LIBCALL_OPTS[lm],
+            "filter_options": [], "command": " ".join(res["cmd"]), "cwd": res["cwd"], "files": proj["files"],
+            "features": proj["features"], "exit_mode": proj["exit"],
+            "functions_first_called_in_a_child": proj.get("late"),
+            "program_calls_per_process": [" ".join(w) for w in sorted(want)],
+            "trace_entries_per_task": [" ".join(g) for g in sorted(got)],
+            "names_missing_in_trace": missing, "unnamed_calls_in_trace": sorted(set(unnamed)),
+            "stdout_native": nout[-600:], "stdout_traced": rout[-600:], "record_stderr": rerr[-800:],
+            "native_rc": nrc, "record_rc": rrc, "info_exit_status": st,
+            "theorem": "c19_refines_doc (per process); Model/PyHook World: a symbol interned by any process of the "
+                       "run is in the symbol file the readers see"}
+
+
+def run_fork_projects(ctx, root, out):
+    import random
+    from concurrent.futures import ThreadPoolExecutor
+    import c19_projgen as G
+    rng = random.Random("C19-fork-%d" % ctx.seed)        # own stream: the older families keep their draws
+    quick = ctx.tier == "quick"
+    nproj = 8 if quick else 32
+    variants = ["wait", "parent-first", "double", "mp"]
+    projects = []
+    for k in range(nproj):
+        proj = G.gen_fork_project(rng, k, variants[k % 4])
+        W = os.path.join(root, "f%d" % k)
+        os.makedirs(W)
+        project_materialize(W, proj)
+        proj["W"], proj["idx"] = W, k
+        lm = MODES[(k // 4 + k) % 3]
+        if proj["heavy"] and lm == "NESTED":
+            lm = "NONE"
+        proj["runs"] = [(["rel", "dot", "abs"][(k // 4) % 3], lm, [])]
+        projects.append(proj)
+    with ThreadPoolExecutor(8) as ex:
+        results = list(ex.map(lambda p: fork_run_one(ctx, out, p, 0), projects))
+    fails, reports, procs = 0, [], 0
+    by_variant = {}
+    for proj, res in zip(projects, results):
+        by_variant[proj["variant"]] = by_variant.get(proj["variant"], 0) + 1
+        procs += len(res["logs"])
+        obj = fork_judge(proj, 0, res)
+        if obj is not None:
+            fails += 1
+            reports.append(("e2e-fork%d-%s" % (proj["idx"], proj["variant"]), obj))
+    reports.sort(key=lambda r: (len(r[1]["files"]["main.py"]), r[0]))
+    for name, obj in reports[:2]:
+        C.violation(ctx, name, obj)
+    return {"fork_projects": nproj, "by_variant": by_variant, "processes_logged": procs, "failures": fails}
+
+
 def run_projects(ctx):
     """-> coverage dict; reports violations / the open finding"""
     import sys
@@ -2071,7 +2222,14 @@ def run_projects(ctx):
                 if shape not in done:
                     done.add(shape)
                     C.violation(ctx, name, obj)
+    try:
+        fork_cov = run_fork_projects(ctx, root, out)
+    except Exception as e:
+        import traceback
+        fork_cov = {"error": traceback.format_exc()[-600:]}
+        C.violation(ctx, "e2e-fork-family", {"kind": "check-internal-error", "error": fork_cov["error"]}, True)
     return {"built": True, "projects": nproj, "corpus_projects": len(corpus), "record_runs": runs, "by_start_mode": by_mode,
+            "fork_family": fork_cov,
             "launcher_model_cases": lm_cases, "launcher_model_disagreements": lm_bad,
             "failures": fails, "failures_by_start_mode": fail_modes,
             "runs_matching_the_launcher_as_found_F_SCRIPTDIR": finding_hits,
@@ -2108,10 +2266,43 @@ def replay_project(ctx, obj):
     return 1
 
 
+def replay_fork_project(ctx, obj):
+    okb, log = ctx.make()
+    if not okb:
+        print("snapshot build failed:\n" + log[-1500:])
+        return 2
+    sys_path = os.path.join(C.VERIF, "harness")
+    import sys
+    if sys_path not in sys.path:
+        sys.path.insert(0, sys_path)
+    root = os.path.join(os.path.realpath(ctx.scratch), "projects")
+    out = os.path.join(os.path.realpath(ctx.scratch), "projects-out")
+    os.makedirs(out, exist_ok=True)
+    W = os.path.join(root, "f0")
+    os.makedirs(W)
+    proj = {"files": obj["files"], "features": obj.get("features", []), "exit": obj.get("exit_mode"), "W": W, "idx": 0,
+            "variant": obj.get("fork_variant"), "late": obj.get("functions_first_called_in_a_child"),
+            "runs": [(obj["start_mode"], obj["libcall_mode"], [])]}
+    project_materialize(W, proj)
+    res = fork_run_one(ctx, out, proj, 0)
+    o = fork_judge(proj, 0, res)
+    print("command : %s   (cwd %s)" % (" ".join(res["cmd"]), res["cwd"]))
+    if o is None:
+        print("monitor : ok (every call of every process is in the trace under its name; stdout and exit status unchanged)")
+        return 0
+    print("monitor : " + o["what"])
+    print("program calls per process : %s" % o["program_calls_per_process"])
+    print("trace entries per task    : %s" % o["trace_entries_per_task"])
+    return 1
+
+
 def replay(ctx, path):
     obj = json.load(open(path))
     print(json.dumps(obj, indent=1))
     line = obj.get("model_input")
+    if obj.get("family") == "fork-project":
+        ctx.snapshot()
+        return replay_fork_project(ctx, obj)
     if "files" in obj and "start_mode" in obj:
         ctx.snapshot()
         return replay_project(ctx, obj)
